@@ -1061,6 +1061,25 @@ func (t *Transaction) DropIndexByKey(handle Handle, key bsonkit.Doc) error {
 	return nil
 }
 
+// savepoint returns a function that restores the transaction to its current
+// state. As catalogs are never modified in place, restoring the catalog
+// undoes all writes made since.
+func (t *Transaction) savepoint() func() {
+	// acquire read lock
+	t.mutex.RLock()
+	catalog, dirty := t.catalog, t.dirty
+	t.mutex.RUnlock()
+
+	return func() {
+		// acquire write lock
+		t.mutex.Lock()
+		defer t.mutex.Unlock()
+
+		t.catalog = catalog
+		t.dirty = dirty
+	}
+}
+
 // Dirty will return whether the transaction contains changes.
 func (t *Transaction) Dirty() bool {
 	// acquire read lock
